@@ -131,7 +131,7 @@ def gen_value(rng, dtype, is_key, colname):
 def gen_data(rng, sch, tier):
     data = {}
     for name, fields in sch:
-        n = rng.choice([0, 1, 1, 2, 2, 3, 3, 3, 4, 4, 5, 6, 8])
+        n = 0 if rng.random() < 0.04 else rng.choice([1, 2, 2, 3, 3, 3, 4, 4, 5, 5, 6, 8])
         if len(sch) > 5:
             n = min(n, 5)
         rows = []
@@ -208,31 +208,65 @@ def gen_lit(rng, dtype):
     return {"d": rng.choice(DATE_LITS)}
 
 
-def gen_leaf(rng, sch, prefer, mismatch_p):
+def quotable(s):
+    return "\n" not in s and (re.fullmatch(r'[^"\\]*(?:\\.[^"\\]*)*', s) is not None
+                              or re.fullmatch(r"[^'\\]*(?:\\.[^'\\]*)*", s) is not None)
+
+
+def data_lit(rng, sch, data, col, dtype):
+    """a literal equal to a value that occurs in the column (so that conditions select something)"""
+    c = col.split(".")[-1]
+    vals = []
+    for rel, fields in sch:
+        if "." in col and rel != col.split(".")[0]:
+            continue
+        for i, f in enumerate(fields):
+            if f[0] == c and f[1] == dtype:
+                vals += [cast(dtype, row[i]) for row in data.get(rel, [])]
+    vals = [v for v in vals if v is not None]
+    if not vals:
+        return None
+    v = rng.choice(vals)
+    if dtype == "integer":
+        return {"i": v}
+    if dtype == "string":
+        return {"s": v} if quotable(v) else None
+    if (v.hour, v.minute, v.second) == (0, 0, 0):
+        return {"d": "%04d-%02d-%02d" % (v.year, v.month, v.day)}
+    return {"d": "%04d-%02d-%02d %02d:%02d:%02d" % (v.year, v.month, v.day, v.hour, v.minute, v.second)}
+
+
+def gen_leaf(rng, sch, prefer, mismatch_p, data=None):
     col, dtype = gen_colref(rng, sch, prefer)
     lt = dtype
     if rng.random() < mismatch_p:
         lt = rng.choice([t for t in ("integer", "string", "date") if t != dtype])
-    lit = gen_lit(rng, lt)
+    lit = None
+    exact = False
+    if data is not None and lt == dtype and rng.random() < 0.5:
+        lit = data_lit(rng, sch, data, col, dtype)
+        exact = lit is not None
+    if lit is None:
+        lit = gen_lit(rng, lt)
     if lt == "string":
-        op = rng.choice(RE_OPS + RE_OPS + EQ_OPS)
+        op = rng.choice(EQ_OPS if exact else RE_OPS + RE_OPS + EQ_OPS)
     else:
         op = rng.choice(ORD_OPS + EQ_OPS)
     return ["leaf", op, col, lit]
 
 
-def gen_tree(rng, sch, prefer, depth, mismatch_p):
+def gen_tree(rng, sch, prefer, depth, mismatch_p, data=None):
     r = rng.random()
     if depth <= 0 or r < 0.4:
-        return gen_leaf(rng, sch, prefer, mismatch_p)
+        return gen_leaf(rng, sch, prefer, mismatch_p, data)
     if r < 0.55:
-        return ["not", gen_tree(rng, sch, prefer, depth - 1, mismatch_p)]
+        return ["not", gen_tree(rng, sch, prefer, depth - 1, mismatch_p, data)]
     k = rng.choice([2, 2, 2, 3, 4])
-    kind = "and" if r < 0.78 else "or"
-    return [kind, [gen_tree(rng, sch, prefer, depth - 1, mismatch_p) for _ in range(k)]]
+    kind = "and" if r < 0.74 else "or"
+    return [kind, [gen_tree(rng, sch, prefer, depth - 1, mismatch_p, data) for _ in range(k)]]
 
 
-def gen_query(rng, sch, tier):
+def gen_query(rng, sch, tier, data=None):
     relnames = [r[0] for r in sch]
     style = rng.random()
     rels = []
@@ -251,7 +285,7 @@ def gen_query(rng, sch, tier):
     prefer = rels or rng.choice([None, ["item"], ["item", "parse"], ["parse", "result"], ["result"]])
     nw = rng.choice([0, 1, 1, 1, 1, 2, 3])
     mismatch_p = 0.25 if rng.random() < 0.12 else 0.0
-    wheres = [gen_tree(rng, sch, prefer, rng.choice([0, 0, 1, 1, 2, 3, 4]), mismatch_p) for _ in range(nw)]
+    wheres = [gen_tree(rng, sch, prefer, rng.choice([0, 0, 1, 1, 2, 3, 4]), mismatch_p, data) for _ in range(nw)]
     return {"proj": proj, "rels": rels, "wheres": wheres}
 
 
@@ -647,6 +681,27 @@ def real_tokens(text):
 # ----------------------------------------------------------------------------------------------
 # the direct oracle's relational semantics
 
+def tree_linked(sch):
+    """are the relations linked by key columns in a tree?  The incidence graph relations -- key
+    names must be a forest: any two relations are linked by at most one path of shared keys."""
+    parent = {}
+
+    def find(x):
+        parent.setdefault(x, x)
+        while parent[x] != x:
+            parent[x] = parent[parent[x]]
+            x = parent[x]
+        return x
+    for rel, fields in sch:
+        for f in fields:
+            if f[2]:
+                a, b = find(("rel", rel)), find(("key", f[0]))
+                if a == b:
+                    return False
+                parent[a] = b
+    return True
+
+
 class Unanswerable(Exception):
     """the query names something that does not exist / cannot be connected / is ill-typed"""
     def __init__(self, why):
@@ -654,7 +709,7 @@ class Unanswerable(Exception):
         self.why = why
 
 
-def oracle_rows(sch, data, q):
+def oracle_rows(sch, data, q, only_needed=False):
     """(rows as tuples of ('raw'|'key', value), single_relation?) by the relational reading of the
     property; raises Unanswerable.  Nested loops over the Cartesian product, no hashing, no plan."""
     schema = {name: fields for name, fields in sch}
@@ -723,6 +778,9 @@ def oracle_rows(sch, data, q):
 
     def keys(r):
         return {f[0] for f in schema[r] if f[2]}
+
+    if only_needed:
+        return needed
 
     def connected(rs):
         rs = list(rs)
@@ -809,7 +867,7 @@ def oracle_rows(sch, data, q):
 
 class C11(Check):
     pid = "C11"
-    quick_cases = 900
+    quick_cases = 1500
     thorough_cases = 20000
     rule = ("databases over item/run/parse/result with optional extra relations (output, fs with two shared keys, "
             "unreachable misc, edge below result), columns shared between relations, shuffled relation/field "
@@ -830,6 +888,9 @@ class C11(Check):
         "the iteration order of a Python set (model flag ordered=false); the oracle compares multisets for every "
         "multi-relation query and exact order for single-relation queries",
         "':today'/'now' literals are only checked to parse to a datetime",
+        "the relational oracle judges only schemas inside the property's quantifier: relations linked by key "
+        "columns in a tree (the incidence graph relations--key names is a forest); schemas with a cycle of shared "
+        "keys (e.g. fs(parse-id,i-id) beside item and parse) are a correspondence-only stream (model vs code)",
     ]
     trusted_base = ["hand-written model lean/Verif/C11/Model.lean, tied to delphin.tsql by the correspondence run",
                     "harness/c11.py: printer, recogniser of the documented grammar, nested-loop relational oracle"]
@@ -912,7 +973,7 @@ class C11(Check):
             r = rng.random()
             sch, feats = gen_schema(rng, tier)
             data = gen_data(rng, sch, tier)
-            q = gen_query(rng, sch, tier)
+            q = gen_query(rng, sch, tier, data)
             if r < 0.04 and q["wheres"]:
                 p = Printer(rng, plain=True, loose_not=True)
                 p.query(q)
@@ -1127,7 +1188,10 @@ class C11(Check):
             return fails
         if res.get("via_query") is not True:
             fail("query('retrieve …') differs from select(…)", uncps(case["text"]))
-        # (2) relational meaning
+        # (2) relational meaning -- judged only on schemas inside the property's quantifier (relations
+        # linked by key columns in a tree); on other schemas the model comparison is all there is
+        if not tree_linked(case["schema"]):
+            return fails
         got = res["rows"]
         try:
             rows, proj, single, ambiguous, involved = oracle_rows(case["schema"], case["data"], q)
@@ -1209,6 +1273,7 @@ class C11(Check):
         q = case["q"]
         for f in case.get("feats", []):
             inc("schema:" + f)
+        inc("schema-space:" + ("tree (oracle judges)" if tree_linked(case["schema"]) else "non-tree (model comparison only)"))
         inc("wheres:%d" % len(q["wheres"]))
         inc("proj:" + ("star" if q["proj"] == ["*"] else "qualified" if any("." in c for c in q["proj"]) else "plain"))
         inc("from:%d" % len(q["rels"]))
